@@ -4,7 +4,7 @@
    names, a frame is a schema plus a backing (Eager = list, Lazy = generator).  [rows_of b] is
    the ordered list of rows a backing holds / has yet to yield. *)
 From Coq Require Import List ZArith Bool.
-From Orso Require Import Base.PySlice Model.C03 Proofs.C03.
+From Orso Require Import Base.PySlice Model.C03 Proofs.C03 Model.C03_Heap Proofs.C03_Heap.
 Import ListNotations.
 
 (* ---------------- windows ---------------- *)
@@ -330,3 +330,173 @@ Proof. vm_compute. discriminate. Qed.
 Example C03_pinned_list_refuted :
   exists (f : frame Z N), snd (pinned_py_list Z N f) <> rows_of Z (back f).
 Proof. exists (mkF (mkS Untyped [0%N]) (Lazy [[1]]%Z)). vm_compute. discriminate. Qed.
+
+(* ====================================================================== *)
+(* Round 2: frames as objects - lazily backed results that stay UNFORCED    *)
+(* while their source is observed (Model/C03_Heap.v)                        *)
+(* ====================================================================== *)
+(* [hrun early st prog]: the object-level run (every step one call on one frame object of the
+   environment; frames a call returns join the environment unlisted; HList = list(df)).
+   [early] says when the generators of select() / filter() / take() bind their source's rows: the
+   code as it stands (filter and take since the repair of F-C03-6, 75a1e72) is [false] - inner
+   generator FUNCTIONS: self._rows is read when the generator is first advanced.
+   [lazy_result sc c R = Some (sc', rows)]: c is select / filter / take (any arguments; select of
+   existing columns), sc' the result's schema and rows the plain-list result spec_select /
+   spec_filter / spec_take on R. *)
+
+(* A generator-backed frame; select / filter / take of it is made and left alone; the source is
+   then observed by ANY operator that materialises it (len, head/tail/slice, to_batches, collect,
+   indexing, row - any arguments); then the derived frame is listed: it is the plain-list result on
+   EVERY row of the source, and the source afterwards lists all its rows. *)
+Theorem C03_unforced_lazy_result_of_generator_backed_source :
+  forall (V : Type) (veqb : V -> V -> bool) (dflt : V) (Nm : Type) (nmeqb : Nm -> Nm -> bool)
+         (sc sc' : schema Nm) (R rows : list (list V)) (c o : op V Nm),
+  lazy_result V dflt Nm nmeqb sc c R = Some (sc', rows) ->
+  materialises V Nm o = true ->
+  exists st x,
+    hrun V veqb dflt Nm nmeqb false (hstart V Nm [mkHI sc R true] (mkHS [] []))
+         [mkHStep 0 (HOp c); mkHStep 0 (HOp o); mkHStep 1 HList; mkHStep 0 HList]
+    = (st, [HNew [names sc']; x; HVal (ORows rows); HVal (ORows R)]).
+Proof. exact unforced_lazy_generator_source. Qed.
+Print Assumptions C03_unforced_lazy_result_of_generator_backed_source.
+
+(* The same with a lazily backed INTERMEDIATE as the source: mid = c0(base) (lazy), two lazily
+   backed frames c1(mid), c2(mid) are made and left alone (c0, c1, c2 each select / filter / take),
+   mid is observed by any materialising operator, then both derived frames, mid and base are
+   listed: every one of them yields the plain-list result in full. *)
+Theorem C03_unforced_lazy_results_of_lazy_intermediate :
+  forall (V : Type) (veqb : V -> V -> bool) (dflt : V) (Nm : Type) (nmeqb : Nm -> Nm -> bool)
+         (sc sc0 sc1 sc2 : schema Nm) (R M L1 L2 : list (list V)) (c0 c1 c2 o : op V Nm),
+  lazy_result V dflt Nm nmeqb sc c0 R = Some (sc0, M) ->
+  lazy_result V dflt Nm nmeqb sc0 c1 M = Some (sc1, L1) ->
+  lazy_result V dflt Nm nmeqb sc0 c2 M = Some (sc2, L2) ->
+  materialises V Nm o = true ->
+  exists st x,
+    hrun V veqb dflt Nm nmeqb false (hstart V Nm [mkHI sc R false] (mkHS [] []))
+      [mkHStep 0 (HOp c0); mkHStep 1 (HOp c1); mkHStep 1 (HOp c2);
+       mkHStep 1 (HOp o); mkHStep 2 HList; mkHStep 3 HList; mkHStep 1 HList; mkHStep 0 HList]
+    = (st, [HNew [names sc0]; HNew [names sc1]; HNew [names sc2]; x;
+            HVal (ORows L1); HVal (ORows L2); HVal (ORows M); HVal (ORows R)]).
+Proof. exact unforced_lazy_of_lazy_intermediate. Qed.
+Print Assumptions C03_unforced_lazy_results_of_lazy_intermediate.
+
+(* A list-backed frame; select / filter / take of it (any arguments) is made and left alone; the
+   source is observed by ANY operator (materialising or iterating); then the derived frame is
+   listed: it is the plain-list operation on the source's rows, and the source still lists its rows. *)
+Theorem C03_unforced_child_of_list_backed_source :
+  forall (V : Type) (veqb : V -> V -> bool) (dflt : V) (Nm : Type) (nmeqb : Nm -> Nm -> bool)
+         (sc sc' : schema Nm) (R rows : list (list V)) (c o : op V Nm),
+  lazy_result V dflt Nm nmeqb sc c R = Some (sc', rows) ->
+  observes V Nm o = true ->
+  exists st x,
+    hrun V veqb dflt Nm nmeqb false (hstart V Nm [mkHI sc R false] (mkHS [] []))
+         [mkHStep 0 (HOp c); mkHStep 0 (HOp o); mkHStep 1 HList; mkHStep 0 HList]
+    = (st, [HNew [names sc']; x; HVal (ORows rows); HVal (ORows R)]).
+Proof. exact unforced_child_of_list. Qed.
+Print Assumptions C03_unforced_child_of_list_backed_source.
+
+(* In ANY state, whatever happened before: calling select / filter / take on frame i adds a frame
+   whose generator G has not started, and in ANY later state in which frame i is list-backed (it
+   need not have been when the call was made) and G is still unstarted, materialising the new frame
+   gives the plain-list result on that list; only that frame and its generator change. *)
+Theorem C03_lazy_results_read_their_source_when_first_advanced :
+  forall (V : Type) (veqb : V -> V -> bool) (dflt : V) (Nm : Type) (nmeqb : Nm -> Nm -> bool)
+         (st : hstate V Nm) (s i : nat) (sc sc' : schema Nm) (r : rowsref V) (c : op V Nm) (R0 rows0 : list (list V)),
+  lazy_result V dflt Nm nmeqb sc c R0 = Some (sc', rows0) ->
+  Nat.modulo s (length (henv st)) = i -> nth_error (henv st) i = Some (mkH sc r) ->
+  exists G,
+    hstep V veqb dflt Nm nmeqb false st (mkHStep s (HOp c)) =
+    (mkHS (henv st ++ [mkH sc' (RG (length (hheap st)))]) (hheap st ++ [G]), HNew [names sc']) /\
+    forall (st2 : hstate V Nm) (j g : nat) (R rows : list (list V)),
+      nth_error (henv st2) j = Some (mkH sc' (RG g)) -> nth_error (hheap st2) g = Some G ->
+      nth_error (henv st2) i = Some (mkH sc (RL R)) ->
+      lazy_result V dflt Nm nmeqb sc c R = Some (sc', rows) ->
+      hmat V dflt Nm st2 j = (mkHS (upd j (mkH sc' (RL rows)) (henv st2)) (upd g GDone (hheap st2)), rows).
+Proof. exact hstep_lazy. Qed.
+Print Assumptions C03_lazy_results_read_their_source_when_first_advanced.
+
+(* No step of ANY object-level program (any operators, any arguments, raising or not, any order
+   of forcing, either binding) alters a list-backed frame, and listing it at any later point
+   yields its rows. *)
+Theorem C03_objects_list_backed_never_altered :
+  forall (V : Type) (veqb : V -> V -> bool) (dflt : V) (Nm : Type) (nmeqb : Nm -> Nm -> bool)
+         (early : bool) (prog : list (hstepd V Nm)) (st : hstate V Nm) (i : nat) (sc : schema Nm) (l : list (list V)),
+  nth_error (henv st) i = Some (mkH sc (RL l)) ->
+  nth_error (henv (fst (hrun V veqb dflt Nm nmeqb early st prog))) i = Some (mkH sc (RL l)).
+Proof. exact hrun_keeps. Qed.
+Print Assumptions C03_objects_list_backed_never_altered.
+
+Theorem C03_objects_list_backed_lists_its_rows :
+  forall (V : Type) (veqb : V -> V -> bool) (dflt : V) (Nm : Type) (nmeqb : Nm -> Nm -> bool)
+         (early : bool) (prog : list (hstepd V Nm)) (st : hstate V Nm) (i : nat) (sc : schema Nm) (l : list (list V)),
+  nth_error (henv st) i = Some (mkH sc (RL l)) ->
+  hmat V dflt Nm (fst (hrun V veqb dflt Nm nmeqb early st prog)) i =
+  (fst (hrun V veqb dflt Nm nmeqb early st prog), l).
+Proof. exact hrun_then_list. Qed.
+Print Assumptions C03_objects_list_backed_lists_its_rows.
+
+(* non-vacuity: the hypotheses of the scenario theorems are satisfiable, for each of the three
+   calls, and the runs produce non-empty listings *)
+Example C03_unforced_nonvacuous :
+  let sc := mkS Untyped [0%N; 1%N; 2%N] in
+  let R := [[1; 2; 3]; [4; 5; 6]; [7; 8; 9]]%Z in
+  lazy_result Z 0%Z N N.eqb sc (Select [2%N; 0%N]) R = Some (mkS Untyped [2%N; 0%N], [[3; 1]; [6; 4]; [9; 7]]%Z) /\
+  lazy_result Z 0%Z N N.eqb sc (Filter [true; false; true]) R = Some (sc, [[1; 2; 3]; [7; 8; 9]]%Z) /\
+  lazy_result Z 0%Z N N.eqb sc (Take [2; 0]%Z) R = Some (sc, [[1; 2; 3]; [7; 8; 9]]%Z) /\
+  materialises Z N Len = true /\ materialises Z N (Head 1%Z) = true /\
+  materialises Z N (Collect [CIdx 0%Z] None) = true /\ observes Z N Iterate = true /\
+  c03h_run false ([mkHI sc R true],
+                  [mkHStep 0 (HOp (Filter [true; false; true])); mkHStep 0 (HOp Len); mkHStep 1 HList; mkHStep 0 HList], [])
+    = [HNew [[0%N; 1%N; 2%N]]; HVal (ONat 3); HVal (ORows [[1; 2; 3]; [7; 8; 9]]%Z); HVal (ORows R)] /\
+  c03h_run false ([mkHI sc R true],
+                  [mkHStep 0 (HOp (Take [2; 0]%Z)); mkHStep 0 (HOp (Head 1%Z)); mkHStep 1 HList; mkHStep 0 HList], [])
+    = [HNew [[0%N; 1%N; 2%N]]; HNew [[0%N; 1%N; 2%N]]; HVal (ORows [[1; 2; 3]; [7; 8; 9]]%Z); HVal (ORows R)].
+Proof. repeat split; vm_compute; reflexivity. Qed.
+
+(* ---------------- binding when the method is called is refuted ---------------- *)
+(* the round-2 seeded change (select as a generator expression over self._rows): the projection
+   of a generator-backed frame that is observed before the projection is listed yields nothing *)
+Example C03_select_bound_at_creation_refuted :
+  exists (sc : schema N) (R : list (list Z)) (attrs : list N) (rows : list (list Z)),
+    spec_select Z 0%Z N N.eqb attrs (names sc) R = Ok rows /\
+    c03h_run true ([mkHI sc R true],
+                   [mkHStep 0 (HOp (Select attrs)); mkHStep 0 (HOp Len); mkHStep 1 HList; mkHStep 0 HList], [])
+    <> [HNew [attrs]; HVal (ONat (length R)); HVal (ORows rows); HVal (ORows R)].
+Proof.
+  exists (mkS Untyped [0%N; 1%N]), [[1; 2]; [3; 4]]%Z, [1%N; 0%N], [[2; 1]; [4; 3]]%Z.
+  split; [reflexivity|]. vm_compute. discriminate.
+Qed.
+
+(* F-C03-6, the code before 75a1e72 (filter and take as generator expressions over self._rows) *)
+Example C03_filter_bound_at_creation_refuted :
+  exists (sc : schema N) (R : list (list Z)) (mask : list bool),
+    c03h_run true ([mkHI sc R true],
+                   [mkHStep 0 (HOp (Filter mask)); mkHStep 0 (HOp Len); mkHStep 1 HList; mkHStep 0 HList], [])
+    <> [HNew [names sc]; HVal (ONat (length R)); HVal (ORows (spec_filter Z mask R)); HVal (ORows R)].
+Proof.
+  exists (mkS Untyped [0%N; 1%N]), [[1; 2]; [3; 4]]%Z, [true; true].
+  vm_compute. discriminate.
+Qed.
+
+Example C03_take_bound_at_creation_refuted :
+  exists (sc : schema N) (R : list (list Z)) (idx : list Z),
+    c03h_run true ([mkHI sc R true],
+                   [mkHStep 0 (HOp (Take idx)); mkHStep 0 (HOp Len); mkHStep 1 HList; mkHStep 0 HList], [])
+    <> [HNew [names sc]; HVal (ONat (length R)); HVal (ORows (spec_take Z idx R)); HVal (ORows R)].
+Proof.
+  exists (mkS Untyped [0%N; 1%N]), [[1; 2]; [3; 4]]%Z, [0; 1]%Z.
+  vm_compute. discriminate.
+Qed.
+
+(* what is still NOT the plain-list result (the property is silent: a generator is one-shot): two
+   unforced frames derived from one generator-backed frame that is never materialised - the first
+   one listed takes every row, the second lists nothing *)
+Example C03_siblings_of_unmaterialised_generator_refuted :
+  exists (sc : schema N) (R : list (list Z)) (mask : list bool),
+    c03h_run false ([mkHI sc R true],
+                    [mkHStep 0 (HOp (Filter mask)); mkHStep 0 (HOp (Filter mask)); mkHStep 1 HList; mkHStep 2 HList], [])
+    <> [HNew [names sc]; HNew [names sc]; HVal (ORows (spec_filter Z mask R)); HVal (ORows (spec_filter Z mask R))].
+Proof.
+  exists (mkS Untyped [0%N; 1%N]), [[1; 2]; [3; 4]]%Z, [true; true].
+  vm_compute. discriminate.
+Qed.
